@@ -188,7 +188,7 @@ func c19Round(g *Gen, dir string, rc *c19Case, res *Result) (string, c19Case, er
 			k := g.key()
 			cs.B = []Op{[]Op{mkOp(1, "UNLINK", k), mkOp(1, "UNLINK", k, g.key()), mkOp(1, "EXPIRE", k, "-1"), mkOp(1, "PEXPIRE", k, "0"), mkOp(1, "EXPIREAT", k, "1"),
 				mkOp(1, "PEXPIREAT", k, "1"), mkOp(1, "GETEX", k, "PXAT", "1"), mkOp(1, "GETEX", k, "EX", "-1"), mkOp(1, "DEL", k), mkOp(1, "GETDEL", k), mkOp(1, "RENAME", k, g.key()),
-				mkOp(1, "LTRIM", k, "1", "0"), mkOp(1, "SPOP", k, "100"), mkOp(1, "HDEL", k, "f1", "f2", "f3", "f4"), mkOp(1, "LPOP", k, "100"), mkOp(1, "SET", k, "v", "PX", "1"),
+				mkOp(1, "LTRIM", k, "1", "0"), mkOp(1, "SPOP", k, "100"), mkOp(1, "HDEL", k, "f1", "f2", "f3", "f4"), mkOp(1, "LPOP", k, "100"), mkOp(1, "GETEX", k, "PX", "-5"),
 				mkOp(1, "SINTERSTORE", k, "nokey", "nokey2"), mkOp(1, "SORT", "nokey", "STORE", k), mkOp(1, "BITOP", "AND", k, "nokey"), mkOp(1, "LMOVE", k, g.key(), "LEFT", "LEFT")}[g.r.Intn(20)]}
 		} else if x < 55 {
 			// a single change after the save: nothing else can set the dirty flag for it
